@@ -460,6 +460,7 @@ func finish(root string, c *Check, tier string, seed int64, units []Unit, recs [
 		"rule":                          c.Rule,
 		"samples":                       samples,
 		"exhaustive":                    exhaustive,
+		"exhaustive_means":              "every unit enumerated its stated finite space completely (for schedule explorations: all interleavings, or all schedules up to the preemption bound named in the per-program counters and notes)",
 		"outcomes":                      outcomes,
 		"units":                         len(units),
 		"unit_wall_s":                   unitWalls,
